@@ -1,6 +1,7 @@
 //! vh-core: conformance harness binding the TLA+ specification to the real arkworks code.
 //!   vh-core replay <machine> --cfg <id> [--big]      TLC transition lines on stdin -> report JSON
 //!   vh-core record <machine> --cfg <id> --seed S --n N --out FILE   real executions -> ndjson trace
+mod bigint;
 mod cfgs;
 mod elem;
 mod field;
@@ -28,6 +29,22 @@ fn record_field<F: elem::Elem>(cfg: &str, seed: u64, n: usize, out: &str, progra
     }
 }
 
+macro_rules! with_limbs {
+    ($n:expr, $func:ident ( $($arg:expr),* )) => {
+        match $n { 1 => $func::<1>($($arg),*), 2 => $func::<2>($($arg),*), 3 => $func::<3>($($arg),*), 4 => $func::<4>($($arg),*),
+                   6 => $func::<6>($($arg),*), 12 => $func::<12>($($arg),*), 13 => $func::<13>($($arg),*),
+                   other => panic!("unsupported limb count {}", other) }
+    };
+}
+fn replay_bigint<const N: usize>() -> util::Report {
+    let stdin = std::io::stdin();
+    bigint::replay::<N>(util::tlc_transitions(BufReader::new(stdin.lock())))
+}
+fn record_bigint<const N: usize>(seed: u64, n: usize, out: &str) -> util::Report {
+    let mut f = std::io::BufWriter::new(std::fs::File::create(out).expect("create trace file"));
+    bigint::record::<N>(seed, n, &mut f)
+}
+
 fn main() {
     // panics in code under test are data: keep the default hook quiet
     std::panic::set_hook(Box::new(|_| {}));
@@ -39,6 +56,14 @@ fn main() {
     let rep = match (cmd, machine) {
         ("replay", "field") if !big => with_toy_field!(cfg.as_str(), replay_field(big)),
         ("replay", "field") => with_big_field!(cfg.as_str(), replay_field(big)),
+        ("replay", "bigint") => { let nl: usize = cfg.parse().expect("--cfg <limbs>"); with_limbs!(nl, replay_bigint()) }
+        ("record", "bigint") => {
+            let nl: usize = cfg.parse().expect("--cfg <limbs>");
+            let seed: u64 = arg(&args, "--seed").and_then(|s| s.parse().ok()).unwrap_or(1);
+            let n: usize = arg(&args, "--n").and_then(|s| s.parse().ok()).unwrap_or(1000);
+            let out = arg(&args, "--out").expect("--out");
+            with_limbs!(nl, record_bigint(seed, n, out.as_str()))
+        }
         ("record", "field") => {
             let seed: u64 = arg(&args, "--seed").and_then(|s| s.parse().ok()).unwrap_or(1);
             let n: usize = arg(&args, "--n").and_then(|s| s.parse().ok()).unwrap_or(1000);
